@@ -136,9 +136,11 @@ StateInv(S) ==
 (* implications of the statement of C23, independent of the scan ORDER and  *)
 (* of what a refused call does.                                             *)
 StepOK(S, o, ok, r, T) ==
-    \* scheduling records are created by Queue only, one per call, for its own payload
+    \* scheduling records are created by Queue only, for its own payload, one per QUEUEING: queueing a
+    \* payload that is already scheduled (order record present) is the same queueing, not a second one
     /\ \A q \in Payload :
-          Count(T.queue, q) <= Count(S.queue, q) + (IF ok /\ o.op = "Queue" /\ o.p = q THEN 1 ELSE 0)
+          Count(T.queue, q) <= Count(S.queue, q)
+                                 + (IF ok /\ o.op = "Queue" /\ o.p = q /\ ~S.order[q] THEN 1 ELSE 0)
     \* ... in particular storing a body alone never schedules anything
     /\ (o.op = "Store" => T.queue = S.queue)
     \* queueing makes the payload eligible (also again, after a retrieval consumed it)
